@@ -327,6 +327,21 @@ fn rot<const B: usize, const L: usize, const P: u8, const H: u8, const BOUNDED: 
     }
 }
 
+/// whole-limb rotations by the CONSTANT amounts 64*k (k = 1..LIMBS-1, and k = LIMBS + 1): symbolic value, concrete amount
+fn rot_limbs<const B: usize, const L: usize>() {
+    let a = uint::<B, L>();
+    let mut k = 1;
+    while k <= L + 1 {
+        if k != L {
+            let s = 64 * k;
+            let m = s % B;
+            assert!(o::same(a.rotate_left(s).as_limbs(), &rotl_fast::<B, L>(a.as_limbs(), m)), "rotate_left by whole limbs");
+            assert!(o::same(a.rotate_right(s).as_limbs(), &rotr_fast::<B, L>(a.as_limbs(), m)), "rotate_right by whole limbs");
+        }
+        k += 1;
+    }
+}
+
 /// the four `<<` shapes ($h != 2) and the four `>>` shapes ($h != 1) for one amount `$n`; `$wl` / `$wr` are the expected Uints
 macro_rules! op_shapes {
     ($h:expr, $a:ident, $n:ident, $wl:ident, $wr:ident, $what:expr) => {{
@@ -492,6 +507,8 @@ crate::harnesses! {
     #[cfg_attr(kani, kani::unwind(6))] fn c05_rotl_w256() { rot::<256, 4, 1, 1, true>() }
     #[cfg_attr(kani, kani::unwind(6))] fn c05_rotr_w256() { rot::<256, 4, 1, 2, true>() }
     #[cfg_attr(kani, kani::unwind(34))] fn c05_rot_edge_w256() { rot::<256, 4, 2, 0, true>() }
+    #[cfg_attr(kani, kani::unwind(8))] fn c05_rot_limbs_w192() { rot_limbs::<192, 3>() }
+    #[cfg_attr(kani, kani::unwind(8))] fn c05_rot_limbs_w256() { rot_limbs::<256, 4>() }
     #[cfg_attr(kani, kani::unwind(10))] fn c05_rotu_w1() { rot::<1, 1, 0, 0, false>() }
     #[cfg_attr(kani, kani::unwind(10))] fn c05_rotu_w8() { rot::<8, 1, 0, 0, false>() }
     #[cfg_attr(kani, kani::unwind(10))] fn c05_rotu_w64() { rot::<64, 1, 0, 0, false>() }
